@@ -9,7 +9,9 @@ import (
 	"github.com/cockroachdb/errors"
 	"github.com/cockroachdb/errors/domains"
 	"github.com/cockroachdb/errors/errutil"
+	"github.com/cockroachdb/errors/grpc/status"
 	"github.com/cockroachdb/errors/withstack"
+	"google.golang.org/grpc/codes"
 )
 
 // Lines[k] is the line of the call made by the k-th user frame (0 = F1's call
@@ -143,6 +145,14 @@ func F1(api string, d int) (r Result) {
 		r.Err, Lines[0] = domains.Handled(base), Here()
 	case "domains.PackageDomain":
 		r.Dom, Lines[0] = domains.PackageDomain(), Here()
+	case "status.Error":
+		r.Err, Lines[0] = status.Error(codes.NotFound, "Zq2x"), Here()
+	case "status.Errorf":
+		r.Err, Lines[0] = status.Errorf(codes.NotFound, "Zq2x %d", 1), Here()
+	case "status.WrapErr":
+		r.Err, Lines[0] = status.WrapErr(codes.NotFound, "Zq2x", base), Here()
+	case "status.WrapErrf":
+		r.Err, Lines[0] = status.WrapErrf(codes.NotFound, base, "Zq2x %d", 1), Here()
 	case "domains.PackageDomainAtDepth":
 		r.Dom, Lines[0] = domains.PackageDomainAtDepth(d), Here()
 	default:
